@@ -84,8 +84,14 @@ def _attr(path):
     return get, set_
 
 
+def _meta_alt(cur):
+    """the 'other value' of the metadata field depends on the current one: an item is appended (in place when the key
+    exists), so that a backup / copy sharing the nested list with the live flow is noticed"""
+    return (cur or []) + ["v"]
+
+
 COMMON = [
-    ("metadata", _meta_get, _meta_set, ["v"]),
+    ("metadata", _meta_get, _meta_set, _meta_alt),
     ("marked", *_attr("marked"), ":grapes:"),
     ("comment", *_attr("comment"), "a comment"),
 ]
@@ -107,7 +113,7 @@ FIELDS = {
     "dns": [
         ("request.id", *_attr("request.id"), 4242),
         ("response.response_code", *_attr("response.response_code"), 3),
-        ("metadata", _meta_get, _meta_set, ["v"]),
+        ("metadata", _meta_get, _meta_set, _meta_alt),
         ("comment", *_attr("comment"), "a comment"),
     ],
 }
@@ -165,8 +171,26 @@ def h_history(X, steps, kinds):
     getters = {nm: get for nm, get, _, _ in pair}
     setters = {nm: st for nm, _, st, _ in pair}
 
+    def rd(nm, fl):
+        try:
+            return getters[nm](fl)
+        except Exception as e:  # noqa: BLE001 - an unreadable field is an observation, judged by the comparisons below
+            return f"<unreadable: {type(e).__name__}>"
+
     def obs(fl):
-        return {nm: getters[nm](fl) for nm in getters}
+        return {nm: rd(nm, fl) for nm in getters}
+
+    def wr(nm, fl, v, where):
+        try:
+            setters[nm](fl, copy.deepcopy(v))
+        except Exception as e:  # noqa: BLE001 - e.g. the object to edit no longer exists after a revert/copy
+            chk(False, "C40/edit/field-not-writable", f"{where}: cannot set {nm}: {type(e).__name__}: {e}")
+
+    def other(nm, cur):
+        a = alt[nm]
+        if callable(a):
+            return a(cur)
+        return a if cur != a else orig[nm]
 
     ref = Ref(obs(f))
     snap_at_backup = None
@@ -205,8 +229,8 @@ def h_history(X, steps, kinds):
                 snap_at_backup = None
         elif op.startswith("set"):
             nm = pair[0][0] if "f1" in op else pair[1][0]
-            v = orig[nm] if op.endswith("original") else alt[nm]
-            setters[nm](f, copy.deepcopy(v))
+            v = orig[nm] if op.endswith("original") else (alt[nm](ref.state[nm]) if callable(alt[nm]) else alt[nm])
+            wr(nm, f, v, where)
             ref.state[nm] = copy.deepcopy(v)
         else:
             edit_copy = "edit copy" in op
@@ -229,10 +253,9 @@ def h_history(X, steps, kinds):
             chk(c.modified() == f.modified(), "C40/copy/modified-differs", f"{where}: copy.modified()={c.modified()} original {f.modified()}")
             chk(_content(f) == before_f, "C40/copy/original-changed-by-copy", f"{where}: copy() itself changed the original")
             if edit_copy:
-                cur = getters[nm](c)
-                v = alt[nm] if cur != alt[nm] else orig[nm]
-                setters[nm](c, copy.deepcopy(v))
-                chk(getters[nm](c) == v, "C40/copy/edit-lost", f"{where}: edit of {nm} on the copy did not take")
+                v = other(nm, ref.state[nm])
+                wr(nm, c, v, where)
+                chk(rd(nm, c) == v, "C40/copy/edit-lost", f"{where}: edit of {nm} on the copy did not take")
                 chk(_content(f) == before_f and obs(f) == ref.state, "C40/copy/not-independent", f"{where}: editing {nm} on the copy changed the original: {_diff(before_f, _content(f))}")
                 c.revert()
                 chk(c.id != f.id, KEY_COPYID, f"{where}: after copy.revert() the copy has the original's id {f.id!r}")
@@ -241,9 +264,8 @@ def h_history(X, steps, kinds):
                 chk((f.get_state().get("backup") is None) == (ref.backup is None), "C40/copy/not-independent", f"{where}: revert/backup on the copy changed the original's backup")
             else:
                 before_c = _content(c)
-                cur = getters[nm](f)
-                v = alt[nm] if cur != alt[nm] else orig[nm]
-                setters[nm](f, copy.deepcopy(v))
+                v = other(nm, ref.state[nm])
+                wr(nm, f, v, where)
                 ref.state[nm] = copy.deepcopy(v)
                 chk(_content(c) == before_c, "C40/copy/not-independent", f"{where}: editing {nm} on the original changed the copy: {_diff(before_c, _content(c))}")
                 f_back = f.get_state().get("backup")
